@@ -53,6 +53,8 @@ def jobs(tier):
     out.append(("create.v1.flat2.magnet", "job_create", dict(version=1, shape="flat2", outkind="given", magnet=True)))
     for exists in (False, True):
         out.append(("rename.%s" % ("exists" if exists else "free"), "job_rename", dict(exists=exists)))
+    out.append(("rename.exists.case-variant", "job_rename", dict(exists=True, target="NAME.torrent")))
+    out.append(("rename.same-name", "job_rename", dict(exists=True, target="name.torrent")))
     return out
 
 
@@ -129,7 +131,7 @@ def job_recheck(E, version, shape, dmg, _mutants=None):
         E.witnesses["recheck of damaged content"] = True
 
 
-def job_create(E, version, shape, outkind, magnet=False, _mutants=None):
+def job_create(E, version, shape, outkind, magnet=False, _mutants=None, _second=False):
     P = 16384
     fs, sizes = cr.make_fs(E, shape, 2, P, order="reversed", lo=1 if shape == "single" else 0, cwd="/work")
     if shape != "single":
@@ -168,6 +170,26 @@ def job_create(E, version, shape, outkind, magnet=False, _mutants=None):
         segs = node.content.segs
         E.check(len(segs) == 1 and segs[0][0] == "T" and isinstance(segs[0][1], BenTok) and "info" in segs[0][1].obj,
                 "C18.create.outfile-is-metafile")
+    # second pass: every path the command touched besides its output (temporary names, probes) is occupied by a
+    # bystander file beforehand; the bystanders must survive untouched
+    touched = sorted({a for entry in fs.log for a in entry[1:] if isinstance(a, str) and a.startswith("/") and a != expect
+                      and a not in snap[0] and not a.startswith("/data/")})
+    if touched and not _second:
+        fs2, _sizes2 = cr.make_fs(E, shape, 2, P, order="reversed", lo=1 if shape == "single" else 0, cwd="/work")
+        fs2.mkdirs("/out")
+        fs2.add("/out/keep.bin", ("k", 0), 10)
+        fs2.add("/work/keep2.bin", ("k", 1), 10)
+        if outkind == "existing":
+            fs2.add_token("/out/x.torrent", BenTok({"old": 1}))
+        for i, t in enumerate(touched):
+            fs2.add_token(t, ("BYSTANDER", i))
+        snap2 = fs2.snapshot()
+        w2 = World(fs2, mutants=_mutants)
+        ok2, res2 = run_cli(E, w2, argv, "C18.create")
+        diff2 = fs2.diff(snap2)
+        E.note("bystanders", touched)
+        E.check(all(p == expect for _, p in diff2), "C18.create.bystanders-untouched",
+                "a file that happened to be called %r was changed or removed by create: %r" % (touched, diff2[:4]))
     payload = [p for p in snap[0] if p.startswith("/data/")]
     for entry in fs.log:
         E.check(not any(str(a).startswith("/data/") for a in entry[1:] if isinstance(a, str)), "C18.create.payload-read-only",
@@ -176,18 +198,22 @@ def job_create(E, version, shape, outkind, magnet=False, _mutants=None):
         E.witnesses.setdefault(k, True)
 
 
-def job_rename(E, exists, _mutants=None):
+def job_rename(E, exists, target="abc123.torrent", _mutants=None):
     fs = AFS()
     meta = concrete_meta(1)
-    fs.add_token("/t/dl/abc123.torrent", BenTok(ben_copy(meta)))
-    if exists:
+    tpath = "/t/dl/" + target
+    fs.add_token(tpath, BenTok(ben_copy(meta)))
+    if exists and target != "name.torrent":
         fs.add_token("/t/dl/name.torrent", BenTok({"other": 1}))
         E.witnesses["rename refused"] = True
     fs.add("/t/dl/x.bin", ("x", 0), E.int("s0", 0, 100))
     snap = fs.snapshot()
     w = World(fs, mutants=_mutants)
-    ok, res = run_cli(E, w, ["rename", "/t/dl/abc123.torrent"], "C18.rename")
-    if exists:
+    ok, res = run_cli(E, w, ["rename", tpath], "C18.rename")
+    if target == "name.torrent":
+        # already carries its name: whatever the command answers, nothing may change
+        E.check(not fs.diff(snap), "C18.rename.same-name-changes-nothing", "%r" % (fs.diff(snap)[:3],))
+    elif exists:
         E.check(not ok and isinstance(res, FileExistsError), "C18.rename.refuses-existing", "result %r" % (res,))
         E.check(not fs.diff(snap) and not fs.log, "C18.rename.refusal-changes-nothing", "%r" % (fs.log[:3],))
     else:
@@ -195,10 +221,10 @@ def job_rename(E, exists, _mutants=None):
             if res is not None:
                 E.fail("C18.rename.no-exception", "%s: %s" % (type(res).__name__, res))
             return
-        E.check(fs.log == [("rename", "/t/dl/abc123.torrent", "/t/dl/name.torrent")], "C18.rename.exactly-one-rename", "%r" % (fs.log,))
+        E.check(fs.log == [("rename", tpath, "/t/dl/name.torrent")], "C18.rename.exactly-one-rename", "%r" % (fs.log,))
         d = fs.diff(snap)
-        E.check(sorted(d) == [("created", "/t/dl/name.torrent"), ("removed", "/t/dl/abc123.torrent")], "C18.rename.only-the-name", "%r" % (d,))
-        E.check(fs.files["/t/dl/name.torrent"].content == snap[0]["/t/dl/abc123.torrent"], "C18.rename.bytes-unchanged")
+        E.check(sorted(d) == [("created", "/t/dl/name.torrent"), ("removed", tpath)], "C18.rename.only-the-name", "%r" % (d,))
+        E.check(fs.files["/t/dl/name.torrent"].content == snap[0][tpath], "C18.rename.bytes-unchanged")
     for k in WITNESSES:
         E.witnesses.setdefault(k, True)
 
@@ -266,6 +292,9 @@ def replay(params, model, notes, workdir, seed):
             expect = os.path.join("work", "name.torrent")
         if params.get("magnet"):
             argv.append("--magnet")
+        for t in notes.get("bystanders", []) or []:
+            rel = t.lstrip("/")
+            refconc.write_file(os.path.join(workdir, rel), b"bystander")
         before = refconc.snapshot(workdir)
         old = os.getcwd()
         os.chdir(work)
@@ -287,16 +316,19 @@ def replay(params, model, notes, workdir, seed):
     from harness import c07
     base = c07.conc_base(1, {})
     d = os.path.join(workdir, "dl")
-    refconc.write_file(os.path.join(d, "abc123.torrent"), refconc.bencode(base))
-    if params["exists"]:
+    target = params.get("target", "abc123.torrent")
+    refconc.write_file(os.path.join(d, target), refconc.bencode(base))
+    if params["exists"] and target != "name.torrent":
         refconc.write_file(os.path.join(d, "name.torrent"), b"d5:otheri1ee")
     before = refconc.snapshot(workdir)
-    ok, res = run(["rename", os.path.join(d, "abc123.torrent")])
+    ok, res = run(["rename", os.path.join(d, target)])
     after = refconc.snapshot(workdir)
+    if target == "name.torrent":
+        return [] if after == before else ["C18.rename.same-name-changes-nothing"]
     if params["exists"]:
         return [] if (not ok and after == before) else ["C18.rename.refuses-existing"]
     want = dict(before)
-    want[os.path.join("dl", "name.torrent")] = want.pop(os.path.join("dl", "abc123.torrent"))
+    want[os.path.join("dl", "name.torrent")] = want.pop(os.path.join("dl", target))
     return [] if (ok and after == want) else ["C18.rename.only-the-name"]
 
 
